@@ -11,6 +11,17 @@ package main
 //	                                        value denotes (a func literal, or a package-level func named by an identifier)
 //	def N_others : List String              every other statement of the package (non-test files) that assigns to
 //	                                        <var> or to a field of <var> — expected empty
+//	def N_<field>_translated : Bool         the function fits the subset below and N_<field>_fn is its translation
+//	def N_<field>_fn : Bool → Bool → Nat → Nat
+//	                                        the function `func(req *http.Request, via []*http.Request) error` as a Lean
+//	                                        function of (req.Method == "POST", via[0].Method == "POST", len(via)) with the
+//	                                        result 0 = `nil`, 1 = `http.ErrUseLastResponse`, 2 = any other error.
+//	                                        Subset: a statement list of `if COND { … return … }` (no else, body ends in a
+//	                                        return) and a final `return E`; COND built with `||`, `&&`, `!`, parentheses from
+//	                                        comparisons (`==`, `!=`, `<`, `<=`, `>`, `>=`) of `len(<via>)` / integer literals and
+//	                                        (`==`, `!=`) of `<req>.Method` / `<via>[0].Method` / "GET" / "POST" / http.MethodGet /
+//	                                        http.MethodPost (parameter names are read from the declaration). Anything else
+//	                                        (or an absent key): `translated = false`, `fn = fun _ _ _ => 2`.
 // REJECTED: no such assignment / more than one at the top level of <func>, a right-hand side that is not
 // `&http.Client{key: value, …}`, a value of <field> that is neither a func literal nor the name of a package-level func.
 
@@ -56,6 +67,7 @@ func kindClientLit(c *Ctx, it Item) (string, error) {
 	}
 	var fields []string
 	val := "none"
+	fnText, translated := "fun _ _ _ => 2", false
 	for _, e := range lit.Elts {
 		kv, ok := e.(*ast.KeyValueExpr)
 		if !ok {
@@ -67,14 +79,15 @@ func kindClientLit(c *Ctx, it Item) (string, error) {
 			continue
 		}
 		var body *ast.BlockStmt
+		var ftype *ast.FuncType
 		switch x := kv.Value.(type) {
 		case *ast.FuncLit:
-			body = x.Body
+			body, ftype = x.Body, x.Type
 		case *ast.Ident:
 			for _, f := range p.Syntax {
 				for _, d := range f.Decls {
 					if g, ok := d.(*ast.FuncDecl); ok && g.Recv == nil && g.Name.Name == x.Name {
-						body = g.Body
+						body, ftype = g.Body, g.Type
 					}
 				}
 			}
@@ -87,6 +100,9 @@ func kindClientLit(c *Ctx, it Item) (string, error) {
 			rows = append(rows, exprText(p.Fset, s))
 		}
 		val = "some [" + strings.Join(quoteAll(rows), ", ") + "]"
+		if t, ok := translateCheckRedirect(p.Fset, ftype, body); ok {
+			fnText, translated = "fun reqPost via0Post nvia => "+t, true
+		}
 	}
 	// any other write to the variable or to one of its fields, anywhere in the package
 	var others []string
@@ -108,6 +124,140 @@ func kindClientLit(c *Ctx, it Item) (string, error) {
 			return true
 		})
 	}
-	return fmt.Sprintf("def %s_fields : List String := [%s]\ndef %s_%s : Option (List String) := %s\ndef %s_others : List String := [%s]\n",
-		name, strings.Join(quoteAll(fields), ", "), name, field, val, name, strings.Join(quoteAll(others), ", ")), nil
+	return fmt.Sprintf("def %s_fields : List String := [%s]\ndef %s_%s : Option (List String) := %s\ndef %s_others : List String := [%s]\n"+
+		"def %s_%s_translated : Bool := %v\ndef %s_%s_fn : Bool → Bool → Nat → Nat := %s\n",
+		name, strings.Join(quoteAll(fields), ", "), name, field, val, name, strings.Join(quoteAll(others), ", "),
+		name, field, translated, name, field, fnText), nil
+}
+
+// translateCheckRedirect: see the header comment (N_<field>_fn). Returns the Lean term over `reqPost via0Post nvia`.
+func translateCheckRedirect(fset *token.FileSet, ft *ast.FuncType, body *ast.BlockStmt) (string, bool) {
+	if ft == nil || body == nil || ft.Params == nil {
+		return "", false
+	}
+	var names []string
+	for _, f := range ft.Params.List {
+		for _, n := range f.Names {
+			names = append(names, n.Name)
+		}
+	}
+	if len(names) != 2 {
+		return "", false
+	}
+	req, via := names[0], names[1]
+	var intExpr func(e ast.Expr) (string, bool)
+	intExpr = func(e ast.Expr) (string, bool) {
+		switch x := e.(type) {
+		case *ast.ParenExpr:
+			return intExpr(x.X)
+		case *ast.BasicLit:
+			if x.Kind == token.INT && strings.Trim(x.Value, "0123456789") == "" && !(len(x.Value) > 1 && x.Value[0] == '0') {
+				return x.Value, true
+			}
+		case *ast.CallExpr:
+			if exprText(fset, x) == "len("+via+")" {
+				return "nvia", true
+			}
+		}
+		return "", false
+	}
+	var methExpr func(e ast.Expr) (string, bool)
+	methExpr = func(e ast.Expr) (string, bool) {
+		switch t := exprText(fset, e); t {
+		case req + ".Method":
+			return "reqPost", true
+		case via + "[0].Method":
+			return "via0Post", true
+		case `"POST"`, "http.MethodPost":
+			return "true", true
+		case `"GET"`, "http.MethodGet":
+			return "false", true
+		}
+		if pe, ok := e.(*ast.ParenExpr); ok {
+			return methExpr(pe.X)
+		}
+		return "", false
+	}
+	var cond func(e ast.Expr) (string, bool)
+	cond = func(e ast.Expr) (string, bool) {
+		switch x := e.(type) {
+		case *ast.ParenExpr:
+			return cond(x.X)
+		case *ast.UnaryExpr:
+			if x.Op == token.NOT {
+				if a, ok := cond(x.X); ok {
+					return "(!" + a + ")", true
+				}
+			}
+		case *ast.BinaryExpr:
+			switch x.Op {
+			case token.LOR, token.LAND:
+				a, ok1 := cond(x.X)
+				b, ok2 := cond(x.Y)
+				if ok1 && ok2 {
+					op := " || "
+					if x.Op == token.LAND {
+						op = " && "
+					}
+					return "(" + a + op + b + ")", true
+				}
+			case token.EQL, token.NEQ, token.LSS, token.LEQ, token.GTR, token.GEQ:
+				if a, ok := intExpr(x.X); ok {
+					if b, ok := intExpr(x.Y); ok {
+						op := map[token.Token]string{token.EQL: "==", token.NEQ: "!=", token.LSS: "<", token.LEQ: "≤", token.GTR: ">", token.GEQ: "≥"}[x.Op]
+						if x.Op == token.EQL || x.Op == token.NEQ {
+							return "(" + a + " " + op + " " + b + ")", true
+						}
+						return "(decide (" + a + " " + op + " " + b + "))", true
+					}
+				}
+				if x.Op == token.EQL || x.Op == token.NEQ {
+					if a, ok := methExpr(x.X); ok {
+						if b, ok := methExpr(x.Y); ok {
+							op := "=="
+							if x.Op == token.NEQ {
+								op = "!="
+							}
+							return "(" + a + " " + op + " " + b + ")", true
+						}
+					}
+				}
+			}
+		}
+		return "", false
+	}
+	ret := func(s ast.Stmt) (string, bool) {
+		r, ok := s.(*ast.ReturnStmt)
+		if !ok || len(r.Results) != 1 {
+			return "", false
+		}
+		switch exprText(fset, r.Results[0]) {
+		case "nil":
+			return "0", true
+		case "http.ErrUseLastResponse":
+			return "1", true
+		}
+		return "2", true
+	}
+	var stmts func(xs []ast.Stmt) (string, bool)
+	stmts = func(xs []ast.Stmt) (string, bool) {
+		if len(xs) == 0 {
+			return "", false
+		}
+		if len(xs) == 1 {
+			return ret(xs[0])
+		}
+		is, ok := xs[0].(*ast.IfStmt)
+		if !ok || is.Init != nil || is.Else != nil {
+			return "", false
+		}
+		c, ok1 := cond(is.Cond)
+		th, ok2 := stmts(is.Body.List)
+		el, ok3 := stmts(xs[1:])
+		if !(ok1 && ok2 && ok3) {
+			return "", false
+		}
+		return "if " + c + " then " + th + " else " + el, true
+	}
+	return stmts(body.List)
 }
